@@ -57,6 +57,10 @@ def rand_case(rng):
     cds = "".join(codons)
     strand = rng.choice([1, 1, -1])
     left, right = hard.rand_seq(rng, rng.randint(0, 7)), hard.rand_seq(rng, rng.randint(0, 7))
+    whole = rng.random() < 0.2
+    if whole:
+        # the gene is the whole sequence and the specifications are given no location
+        strand, left, right = 1, "", ""
     region = cds if strand == 1 else bspec_rc(cds)
     seq = left + region + right
     loc = [len(left), len(left) + len(region), strand]
@@ -76,6 +80,14 @@ def rand_case(rng):
                 np_seed=rng.randint(0, 10 ** 6), protein=protein, targeted=targeted)
     if first is not None:
         desc["construct_first"] = [first]
+    if whole:
+        obj["no_location"] = True
+        desc["constraints"][0]["no_location"] = True
+        if rng.random() < 0.6:
+            # the same location-less specification objects were used before on another gene (shorter, same length or
+            # longer): a batch of genes optimized with one list of specifications
+            k2 = rng.choice([max(1, k - 1), max(1, k // 2), k, k + 2])
+            desc["reuse_after"] = "".join(rng.choice(sorted(back[a])) for a in (rng.choice(AAS) for _ in range(k2)))
     return desc
 
 
